@@ -10,6 +10,7 @@ import (
 	"context"
 	"encoding/json"
 	"fmt"
+	"sort"
 	"strings"
 	"testing"
 	"time"
@@ -239,6 +240,55 @@ func compareAssignments(r *report.Run, sp *refspec.Spec, spec *common.Spec, ref 
 				if uint64(vi) >= uint64(len(ref.Validators)) || ref.Validators[vi].Pubkey != sc.want.Pubkeys[i] {
 					return report.Failf("sync/context-wrong", "%s: context %s sync committee member %d is validator %d, whose key is not the state's member %d", where, sc.name, i, vi, i)
 				}
+			}
+			// subcommittee / subnet helpers of the indexed committee (p2p spec: compute_subnets_for_sync_committee,
+			// get_sync_subcommittee_pubkeys): positions i*SIZE/4 .. (i+1)*SIZE/4 form subcommittee i
+			size := uint64(len(sc.want.Pubkeys)) / 4
+			if size > 0 && uint64(len(sc.want.Pubkeys))%4 == 0 {
+				want := map[uint64]map[uint64]bool{}
+				for i, vi := range sc.got.Indices {
+					if want[uint64(vi)] == nil {
+						want[uint64(vi)] = map[uint64]bool{}
+					}
+					want[uint64(vi)][uint64(i)/size] = true
+				}
+				for sub := uint64(0); sub < 4; sub++ {
+					pubs, idx, err := sc.got.Subcommittee(spec, sub)
+					if err != nil || uint64(len(idx)) != size || uint64(len(pubs)) != size {
+						return report.Failf("sync/subcommittee", "%s: %s committee Subcommittee(%d): %d indices, %d keys, err %v; want %d", where, sc.name, sub, len(idx), len(pubs), err, size)
+					}
+					for k := uint64(0); k < size; k++ {
+						if idx[k] != sc.got.Indices[sub*size+k] || pubs[k].Compressed != common.BLSPubkey(sc.want.Pubkeys[sub*size+k]) {
+							return report.Failf("sync/subcommittee", "%s: %s committee Subcommittee(%d)[%d] is not member %d of the committee", where, sc.name, sub, k, sub*size+k)
+						}
+					}
+				}
+				if _, _, err := sc.got.Subcommittee(spec, 4); err == nil {
+					return report.Failf("sync/subcommittee", "%s: Subcommittee(4) gives no error (SYNC_COMMITTEE_SUBNET_COUNT = 4)", where)
+				}
+				probe := []uint64{uint64(len(ref.Validators))}
+				for v := range want {
+					probe = append(probe, v)
+				}
+				sort.Slice(probe, func(i, j int) bool { return probe[i] < probe[j] })
+				for _, v := range probe {
+					got := map[uint64]bool{}
+					for _, sn := range sc.got.Subnets(spec, common.ValidatorIndex(v)) {
+						got[sn] = true
+					}
+					for sub := uint64(0); sub < 5; sub++ {
+						if got[sub] != want[v][sub] {
+							return report.Failf("sync/subnets", "%s: %s committee Subnets(validator %d) = %v, the validator's positions give %v", where, sc.name, v, sc.got.Subnets(spec, common.ValidatorIndex(v)), want[v])
+						}
+						if in := sc.got.InSubnet(spec, common.ValidatorIndex(v), sub); in != want[v][sub] {
+							return report.Failf("sync/subnets", "%s: %s committee InSubnet(validator %d, %d) = %v, positions give %v", where, sc.name, v, sub, in, want[v][sub])
+						}
+					}
+					if len(want[v]) >= 2 {
+						r.Hit("sync-member-on-two-subnets")
+					}
+				}
+				r.Class("sync-subnet-helpers-compared")
 			}
 		}
 		r.Class("context-sync-committees-compared")
